@@ -19,6 +19,7 @@ def run(model, rep, tier):
     r3_counters(ctx, rep)
     r4_recorded_once(ctx, rep)
     r5_own_class_and_name(ctx, rep)
+    r6_writer_total_on_strings(ctx, rep)
     rep.units['cfg'] = ctx.cfg_stats
 
 
@@ -568,3 +569,103 @@ def r5_own_class_and_name(ctx, rep, R='C17.R5'):
     rep.check(okg, R, 'get_test_class_name = <test.__module__>.<test.__class__.__name__>',
               'the class name is computed as %s' % (norm(rr[0].value) if rr else '?'), key='own:getclass',
               func=gc_.qualname, where=ctx.where(gc_, gc_.node))
+
+
+# ---------------------------------------------------------------------------------------------
+# R6 -- the recorder / writer is total on the strings tests produce
+
+def _seq_len(e, g, nid, depth=0):
+    """lower / upper bound knowledge of the length of the sequence *e*: ('min', n) when at least n
+    elements are guaranteed for EVERY receiver string, ('maybe-empty', why) when some string makes
+    it empty, None when unknown"""
+    from .common import reaching_defs
+    if isinstance(e, ast.Call) and isinstance(e.func, ast.Attribute):
+        a = e.func.attr
+        if a in ('split', 'rsplit'):
+            sep = e.args[0] if e.args else None
+            for k in e.keywords:
+                if k.arg == 'sep':
+                    sep = k.value
+            if sep is None or (isinstance(sep, ast.Constant) and sep.value is None):
+                return ('maybe-empty', 'str.%s() without a separator returns [] for an empty or '
+                        'all-whitespace string' % a)
+            return ('min', 1)
+        if a == 'splitlines':
+            return ('maybe-empty', 'str.splitlines() returns [] for the empty string')
+        if a in ('partition', 'rpartition'):
+            return ('min', 3)
+    if isinstance(e, (ast.Tuple, ast.List)) and not any(isinstance(x, ast.Starred) for x in e.elts):
+        return ('min', len(e.elts))
+    if isinstance(e, ast.Name) and depth < 3 and g is not None:
+        ds = reaching_defs(g, nid, e.id)
+        rs = [_seq_len(d, g, nid, depth + 1) if isinstance(d, ast.expr) else None for d in ds]
+        if rs and all(r is not None for r in rs):
+            bad = [r for r in rs if r[0] == 'maybe-empty']
+            if bad:
+                return bad[0]
+            return ('min', min(r[1] for r in rs))
+    return None
+
+
+def r6_writer_total_on_strings(ctx, rep, R='C17.R6'):
+    rep.rule(R, 'the recorder and the report writer are total on the strings tests produce (raise-'
+             'source catalogue): in XMLOutputFormattingWrapper and the name parsers it calls, a '
+             'constant index into the result of a string-splitting method is in range for EVERY '
+             'string -- split/rsplit with a separator yield at least one part, partition three; '
+             'splitlines() and separator-less split() yield none for an empty (blank) message, so '
+             '[0] on them raises IndexError, the writing loop is left and the reports of that and '
+             'all later suites are missing.  Sequences of unknown origin are not judged')
+    m = ctx.model
+    cls = None
+    for ci in m.all_classes():
+        if ci.name == 'XMLOutputFormattingWrapper':
+            cls = ci
+    scope = list(cls.methods.values()) if cls is not None else []
+    seen = {f.qualname for f in scope}
+    todo = list(scope)
+    while todo:
+        f = todo.pop()
+        for c in ast.walk(f.node):
+            if isinstance(c, ast.Name) and isinstance(c.ctx, ast.Load):
+                # called directly or handed around as a value (the parser table of _record)
+                r = f.module.functions.get(c.id)
+                if r is not None and r.qualname not in seen:
+                    seen.add(r.qualname)
+                    scope.append(r)
+                    todo.append(r)
+    n = 0
+    for f in scope:
+        g = None
+        for sub in ast.walk(f.node):
+            if not (isinstance(sub, ast.Subscript) and isinstance(sub.ctx, ast.Load)):
+                continue
+            idx = sub.slice
+            if isinstance(idx, ast.UnaryOp) and isinstance(idx.op, ast.USub) and \
+                    isinstance(idx.operand, ast.Constant) and isinstance(idx.operand.value, int):
+                need = idx.operand.value
+            elif isinstance(idx, ast.Constant) and isinstance(idx.value, int) and \
+                    not isinstance(idx.value, bool):
+                need = idx.value + 1
+            else:
+                continue
+            if g is None:
+                g = ctx.cfg(f)
+            nid = None
+            for nd in g.nodes:
+                if nd.ast is not None and any(x is sub for x in ast.walk(nd.ast)):
+                    nid = nd.id
+                    break
+            if nid is None:
+                continue
+            r = _seq_len(sub.value, g, nid)
+            if r is None:
+                continue
+            n += 1
+            ok = r[0] == 'min' and r[1] >= need
+            rep.check(ok, R, '%s: %s in range for every string' % (f.qualname, norm(sub)),
+                      '%s: %s' % (norm(sub), r[1] if r[0] == 'maybe-empty' else
+                                  'only %d element(s) are guaranteed' % r[1]),
+                      key='index:%s:%s' % (f.qualname, norm(sub)), func=f.qualname,
+                      where=ctx.where(f, sub))
+    rep.floor(R, n, 2, 'constant indexes into split results')
+    rep.units.setdefault('scope', {})[R] = sorted(seen)
